@@ -18,7 +18,12 @@ numbers of the writer functions are those of /repo at da5d5a2):
                                  dpIdx = 0 ; index 0 ; new WAL
   CheckAndRotate(false) / rotateSegment(false) 1248-1280, 1458-1535  (block rotated first if it holds data) ; new suffix ;
                                  currBlockNum = 0 ; Blknum = 0 ; dpWalState.segID = nextSuffix ; THEN cleanAndInitNewDpWal
-  metric-name WAL  2154-2324 ; metrics-meta WAL 2326-2392 (system level, correspondence only)
+  metric-name WAL  2154-2324 ; metrics-meta WAL 2326-2392 (system level; with the repairs build/patches/c10-5, c10-6):
+  RecoverMNameWALData  FlushMetricNames (creates the segment directory) BEFORE deleteWalFile (recoverNames; before c10-5
+                       the other way round and without the directory: nameActionsOld, sysNamesAfterRecoveryOnOld)
+  RecoverMEntryWALData a WAL entry of a segment that already has an entry in metricmeta.json is skipped
+                       (sysMetaAfterRecovery; before c10-6 every entry was appended: sysMetaAfterRecoveryOld)
+  flushBlock           FlushSummary ; OpenFile(.tso, O_TRUNC) ; OpenFile(.tsg, O_TRUNC) ; Write ; Write  (flushCrashed)
 
 The framing is abstracted (Model/Wal.lean + Props/C10 deliver it): a WAL file is the list of its completely
 appended blocks.  The outcome of the size test `GetWALStats() > MAX_WAL_FILE_SIZE_BYTES` depends on zstd and is
@@ -373,21 +378,86 @@ def sysDurable (s : Sys) : Disk := s.shards.flatMap (·.durable)
 def sysDiskAfterRecovery (s : Sys) : Disk := applyFlushes (sysDurable s) (recover (sysDir s))
 def sysDiskAfterRecoveryOld (s : Sys) : Disk := applyFlushes (sysDurable s) (recoverOld (sysDir s))
 
-/-- metricmeta.json after RecoverMEntryWALData (the reader keeps the LAST entry per segment directory) -/
-def sysMetaAfterRecovery (s : Sys) : List MetaEntry := s.metaFile ++ s.metaWal
+/-- metricmeta.json after RecoverMEntryWALData BEFORE the repair c10-6 (the reader keeps the LAST entry per segment
+directory): every entry of the meta WAL was appended, also the older snapshot of a segment that has been rotated since -/
+def sysMetaAfterRecoveryOld (s : Sys) : List MetaEntry := s.metaFile ++ s.metaWal
 
-/-- .mnm files after RecoverMNameWALData: (shard, seg, names); the recovered file of the open segment holds
-the names of the completed name-WAL blocks (first occurrence order is not observable: a Go map).
-As coded, FlushMetricNames does not create the segment directory: the recovered names are written only if the
-directory exists, i.e. if some block of that segment is on disk (rotated, or just flushed by RecoverWALData, which
-runs first); otherwise they are dropped (and the name WAL is deleted all the same). -/
-def sysNamesAfterRecoveryOn (disk : Disk) (s : Sys) : List (Nat × Nat × List Nat) :=
+def hasMetaEntry (l : List MetaEntry) (e : MetaEntry) : Bool := l.any (fun x => x.shard == e.shard && x.seg == e.seg)
+
+/-- metricmeta.json after RecoverMEntryWALData (repair c10-6): a WAL entry of a segment that already has an entry in the
+file is skipped — the entry written by the segment's rotation is final, the WAL holds an older state of it -/
+def sysMetaAfterRecovery (s : Sys) : List MetaEntry := s.metaFile ++ s.metaWal.filter (fun e => !hasMetaEntry s.metaFile e)
+
+/-- the entry the reader keeps for a segment: the LAST one of the file (ReadMetricsMeta fills a map line by line) -/
+def metaEntryOf (l : List MetaEntry) (shard seg : Nat) : Option MetaEntry :=
+  (l.filter (fun x => x.shard == shard && x.seg == seg)).getLast?
+
+/-- .mnm files after RecoverMNameWALData BEFORE the repair c10-5: (shard, seg, names); the recovered file of the open
+segment holds the names of the completed name-WAL blocks (first occurrence order is not observable: a Go map).
+FlushMetricNames did not create the segment directory: the recovered names were written only if the
+directory existed, i.e. if some block of that segment was on disk (rotated, or just flushed by RecoverWALData, which
+runs first); otherwise they were dropped (and the name WAL was deleted all the same). -/
+def sysNamesAfterRecoveryOnOld (disk : Disk) (s : Sys) : List (Nat × Nat × List Nat) :=
   s.shards.flatMap (fun st =>
     st.mnm.map (fun (seg, ns) => (st.shard, seg, ns))
       ++ (if st.nameWal.flatten.isEmpty || !(disk.any (fun kv => kv.1.1 == dec st.shard && kv.1.2.1 == st.seg)) then []
           else [(st.shard, st.seg, st.nameWal.flatten)]))
 
-def sysNamesAfterRecovery (s : Sys) : List (Nat × Nat × List Nat) := sysNamesAfterRecoveryOn (sysDiskAfterRecovery s) s
+/-! ### RecoverMNameWALData as a sequence of steps (one shard: ONE name-WAL file, the one of the open segment; the name
+WALs of older segments were deleted at their rotation).  After the repair c10-5: FlushMetricNames (creates the segment
+directory when it is missing) iff the WAL holds at least one name, THEN deleteWalFile.  Before it: deleteWalFile first. -/
+
+structure NameDisk where
+  wal : Option (List Nat)        -- the names in the name-WAL file; none = the file is gone
+  mnm : List (Nat × List Nat)    -- the .mnm files: (segment, names)
+deriving Repr, DecidableEq
+
+inductive NameAct where
+  | flush (seg : Nat) (ns : List Nat)   -- FlushMetricNames completed
+  | delete                              -- deleteWalFile completed
+deriving Repr
+
+/-- FlushMetricNames writes the .mnm file of the segment (O_CREATE, from offset 0) -/
+def writeMnm (seg : Nat) (ns : List Nat) : List (Nat × List Nat) → List (Nat × List Nat)
+  | [] => [(seg, ns)]
+  | (s, v) :: r => if s = seg then (seg, ns) :: r else (s, v) :: writeMnm seg ns r
+
+def nameActions (seg : Nat) (nd : NameDisk) : List NameAct :=
+  match nd.wal with
+  | none => []
+  | some ns => (if ns.isEmpty then [] else [NameAct.flush seg ns]) ++ [NameAct.delete]
+
+def nameActionsOld (seg : Nat) (nd : NameDisk) : List NameAct :=
+  match nd.wal with
+  | none => []
+  | some ns => NameAct.delete :: (if ns.isEmpty then [] else [NameAct.flush seg ns])
+
+def applyNameAct (nd : NameDisk) : NameAct → NameDisk
+  | .flush seg ns => { nd with mnm := writeMnm seg ns nd.mnm }
+  | .delete => { nd with wal := none }
+
+/-- RecoverMNameWALData run to its end -/
+def recoverNames (seg : Nat) (nd : NameDisk) : NameDisk := (nameActions seg nd).foldl applyNameAct nd
+/-- … died right after its `m`-th step -/
+def recoverNamesCrashed (m seg : Nat) (nd : NameDisk) : NameDisk := ((nameActions seg nd).take m).foldl applyNameAct nd
+def recoverNamesCrashedOld (m seg : Nat) (nd : NameDisk) : NameDisk := ((nameActionsOld seg nd).take m).foldl applyNameAct nd
+
+/-- first restart dies after `m` steps of RecoverMNameWALData, a second restart recovers completely -/
+def namesAfterCrashedRecovery (m seg : Nat) (nd : NameDisk) : NameDisk := recoverNames seg (recoverNamesCrashed m seg nd)
+/-- … before the repair (the second restart of the old code = the new one on what is left: no WAL, nothing to do; WAL there: same steps in the other order, same result) -/
+def namesAfterCrashedRecoveryOld (m seg : Nat) (nd : NameDisk) : NameDisk :=
+  let nd1 := recoverNamesCrashedOld m seg nd
+  (nameActionsOld seg nd1).foldl applyNameAct nd1
+
+def nameDiskOf (st : WState) : NameDisk := { wal := some st.nameWal.flatten, mnm := st.mnm }
+
+/-- .mnm files after RecoverMNameWALData (repair c10-5): (shard, seg, names) -/
+def sysNamesAfterRecovery (s : Sys) : List (Nat × Nat × List Nat) :=
+  s.shards.flatMap (fun st => (recoverNames st.seg (nameDiskOf st)).mnm.map (fun (seg, ns) => (st.shard, seg, ns)))
+
+/-- … when the first restart died after `m` steps of RecoverMNameWALData of shard 0 (one shard) -/
+def sysNamesAfterCrashedRecovery (m : Nat) (s : Sys) : List (Nat × Nat × List Nat) :=
+  s.shards.flatMap (fun st => (namesAfterCrashedRecovery m st.seg (nameDiskOf st)).mnm.map (fun (seg, ns) => (st.shard, seg, ns)))
 
 end SigModel.WalRecover
 
@@ -459,6 +529,27 @@ def diskAfterCrashedRecovery (m : Nat) (d : RawDir) (disk : Disk) : Disk :=
 def diskAfterCrashedRecoveryOld (m : Nat) (d : RawDir) (disk : Disk) : Disk :=
   let s := recoverCrashedOld m d disk
   applyFlushes s.2 (recoverOld s.1)
+
+/-! ### crash BETWEEN THE SYSTEM CALLS of the flushBlock inside RecoverWALData (first restart).  flushBlock =
+FlushSummary (append to the segment's .mbsu; a second entry for the same block number is harmless: the reader collects
+block numbers into a set) ; OpenFile(.tso, O_TRUNC) ; OpenFile(.tsg, O_TRUNC) ; Write(.tso) ; Write(.tsg).  Between the
+first OpenFile and the last Write the block files are empty or half written: the block holds nothing readable (modelled
+as the empty block).  The WAL files are deleted only after flushBlock returned. -/
+
+def flushCrashed (m : Nat) (k : Key) (v : List Wal.Dp) (disk : Disk) : Disk :=
+  if m ≤ 1 then disk
+  else if m < 5 then flushTo k [] disk
+  else flushTo k v disk
+
+/-- the first restart died after `m` system calls of its FIRST flushBlock -/
+def recoverFlushCrashed (m : Nat) (d : RawDir) (disk : Disk) : Disk :=
+  match recover d with
+  | [] => disk
+  | (k, v) :: _ => flushCrashed m k v disk
+
+/-- … and a second restart recovers completely (the WAL directory is as the writer left it) -/
+def diskAfterFlushCrashedRecovery (m : Nat) (d : RawDir) (disk : Disk) : Disk :=
+  applyFlushes (recoverFlushCrashed m d disk) (recover d)
 
 /-- Wal.Write (meta WAL) BEFORE the repair c10-4 = truncate ; encode ; writeBlockToFile.  Died right after truncate:
 the file holds the version byte only. -/
